@@ -9,7 +9,7 @@ W = {"n_quick": 160, "n_thorough": 4000}
 
 PROPS = {
     "C01": {"title": "serialise-then-parse round trip", "level": "other",
-            "sections": [("pyvc", {}), ("atnk", {"groups": ["canon_lex", "lexer_eq"]}), ("witness", W)],
+            "sections": [("pyvc", {}), ("atnk", {"groups": ["canon_lex", "lexer_eq"]}), ("lean", {"files": ["Fold.lean"]}), ("witness", W)],
             "explanation": "contracts on serialize/_value_to_blackbird/numpy_to_blackbird and on the load side (PyVC, discharged by z3) + complete lexical lemmas on the "
                            "shipped lexer DFA; parse-back of serializer output by the shipped parser is a bounded stand-in (witness family roundtrip)"},
     "C02": {"title": "loading yields the program the script denotes", "level": "proof",
@@ -36,7 +36,7 @@ PROPS = {
     "C08": {"title": "measured-register arguments become transforms", "level": "proof",
             "sections": [("pyvc", {}), ("frames", {}), ("witness", W)]},
     "C09": {"title": "API-built programs serialise to valid, equivalent scripts", "level": "other",
-            "sections": [("pyvc", {}), ("atnk", {"groups": ["canon_lex"]}), ("witness", W)],
+            "sections": [("pyvc", {}), ("atnk", {"groups": ["canon_lex"]}), ("lean", {"files": ["Fold.lean"]}), ("witness", W)],
             "explanation": "as C01, starting from API-built programs; the parse-back of the emitted text is bounded (witness family api_serialize)"},
     "C10": {"title": "ungrammatical scripts raise BlackbirdSyntaxError at the offending token", "level": "proof",
             "sections": [("pyvc", {}), ("atnk", {"groups": ["dominance"]}), ("witness", W)]},
@@ -57,7 +57,7 @@ PROPS = {
                            "code, and the re-load of the emitted declarations by the shipped parser is a bounded stand-in (witness families tdm, tdm_x, roundtrip_x)",
             "sections": [("pyvc", {}), ("witness", W)]},
     "C16": {"title": "the dependency graph is an order-respecting DAG", "level": "proof",
-            "sections": [("pyvc", {}), ("lean", {"files": ["Graph.lean"]}), ("witness", W)]},
+            "sections": [("pyvc", {}), ("lean", {"files": ["Graph.lean", "GridEdges.lean"]}), ("witness", W)]},
     "C17": {"title": "template matching inverts instantiation", "level": "other",
             "sections": [("pyvc", {}), ("lean", {"files": ["Graph.lean"]}), ("witness", W)],
             "explanation": "prechecks and argument loop of match_template under assumed contracts for DiGraphMatcher/solve (heavy assumptions, listed); reordering "
